@@ -1,7 +1,10 @@
 import os
 
+import l0_common
+
 ID = "C14"
 LEVEL = "proof"
+generate = l0_common.generate   # regenerates coq/Gen/GoArith.v from ../repo (Size.times is used by segmentSize)
 COQ_TARGETS = ["Props/Properties_C14.vo", "Extract/ExtractFrame.vo"]
 PROPS_FILES = ["Props/Properties_C14.v"]
 RUNS = [dict(name="frame", harness="c14", driver="frame", model_ml="frame_model")]
